@@ -26,6 +26,7 @@ def run(model, rep, tier):
     from .common import child_keeps_only_own_layer
     child_keeps_only_own_layer(ctx, rep, 'C10.R5')
     r4_unit_first_premises(ctx, rep)
+    r6_resumed_layers_start_in_order(ctx, rep)
     rep.units['cfg'] = ctx.cfg_stats
 
 
@@ -191,3 +192,122 @@ def r4_unit_first_premises(ctx, rep, R='C10.R4'):
     okb = ut is not None and all(b in (None, 'object') for b in ut.bases)
     rep.check(okb, R, 'layer.UnitTests has no base layers', 'UnitTests derives from %s'
               % (ut.bases if ut else '?'), key='unit:bases', func='layer.UnitTests')
+
+
+# ---------------------------------------------------------------------------------------------
+# R6 -- layers handed to resume_tests are started in the order they were handed over
+
+def _end_of(call):
+    """which end of a list / deque the method call works on: ('put'|'take', 'head'|'tail') or None"""
+    a = call.func.attr
+    if a == 'append':
+        return ('put', 'tail')
+    if a == 'appendleft':
+        return ('put', 'head')
+    if a == 'insert' and call.args and norm(call.args[0]) == '0':
+        return ('put', 'head')
+    if a == 'popleft':
+        return ('take', 'head')
+    if a == 'pop':
+        if not call.args or norm(call.args[0]) == '-1':
+            return ('take', 'tail')
+        if norm(call.args[0]) == '0':
+            return ('take', 'head')
+    return None
+
+
+def r6_resumed_layers_start_in_order(ctx, rep, R='C10.R6'):
+    rep.rule(R, 'queue discipline of resume_tests (the ordered layer list is its parameter): the '
+             'per-layer subprocess threads are created in one forward pass over that parameter and '
+             'started in creation order -- the container they wait in is filled at one end and '
+             'drained at the OTHER (append + pop(0) / popleft, or a forward iteration).  Filling and '
+             'draining at the same end starts the layers in reverse: with one process at a time a '
+             'derived layer then runs before its own base layer')
+    from .common import reaching_defs
+    fi = ctx.model.func('runner.resume_tests')
+    g = ctx.cfg(fi)
+    where = ctx.where(fi, fi.node)
+    P_ = 'layers' if 'layers' in params(fi) else None
+    if P_ is None:
+        rep.assume('C10.R6 not applied: resume_tests has no parameter named layers')
+        return
+    # the thread containers: L.<put>(X) inside "for ... in layers" where X is / aliases a Thread(...)
+    def is_thread(e, nid, depth=0):
+        if isinstance(e, ast.Call) and (dotted(e.func) or '').split('.')[-1] == 'Thread':
+            return True
+        if isinstance(e, ast.Name) and depth < 3:
+            ds = reaching_defs(g, nid, e.id)
+            return bool(ds) and all(isinstance(d, ast.expr) and is_thread(d, nid, depth + 1) for d in ds)
+        return False
+    puts, takes, fwd = {}, {}, True
+    for lp in ast.walk(fi.node):
+        if not isinstance(lp, ast.For):
+            continue
+        it = lp.iter
+        over = None
+        if is_name(it, P_):
+            over = 'forward'
+        elif isinstance(it, ast.Call) and call_name(it) in ('enumerate', 'list', 'tuple', 'iter') and \
+                it.args and is_name(it.args[0], P_):
+            over = 'forward'
+        elif any(is_name(x, P_) for x in ast.walk(it)):
+            over = norm(it)
+        if over is None:
+            continue
+        for nd in g.nodes:
+            if nd.kind != 'stmt' or not any(x is nd.ast for x in ast.walk(lp)):
+                continue
+            for c in ast.walk(nd.ast):
+                if isinstance(c, ast.Call) and isinstance(c.func, ast.Attribute) and \
+                        isinstance(c.func.value, ast.Name) and _end_of(c) and _end_of(c)[0] == 'put' \
+                        and c.args and is_thread(c.args[-1], nd.id):
+                    puts.setdefault(c.func.value.id, []).append((_end_of(c)[1], c, over))
+    if not puts:
+        rep.assume('C10.R6 not applied: no container of per-layer threads filled in a loop over the '
+                   'layers parameter of resume_tests')
+        return
+    n = 0
+    for L, ps in sorted(puts.items()):
+        for end, c, over in ps:
+            rep.check(over == 'forward', R, 'threads are created in one forward pass over %s' % P_,
+                      'the loop creating the threads iterates %s, not the ordered layer list as '
+                      'given' % over, key='creation-order', func=fi.qualname, where=ctx.where(fi, c))
+        # how are the threads taken out to be started?
+        for nd in g.nodes:
+            if nd.kind != 'stmt':
+                continue
+            for c in ast.walk(nd.ast):
+                if isinstance(c, ast.Call) and isinstance(c.func, ast.Attribute) and \
+                        is_name(c.func.value, L) and _end_of(c) and _end_of(c)[0] == 'take':
+                    takes.setdefault(L, []).append((_end_of(c)[1], c))
+        put_ends = {e for e, _c, _o in ps}
+        for tend, c in takes.get(L, []):
+            n += 1
+            ok = len(put_ends) == 1 and tend not in put_ends
+            rep.check(ok, R, '%s: filled at the %s, drained at the %s (%s)' % (
+                L, '/'.join(sorted(put_ends)), tend, norm(c)),
+                '%s is filled at the %s and %s takes from the %s as well: the layers are started '
+                'last-first, a derived layer before the base layer it was ordered after'
+                % (L, '/'.join(sorted(put_ends)), norm(c), tend), key='fifo:' + L,
+                func=fi.qualname, where=ctx.where(fi, c))
+        for lp in ast.walk(fi.node):
+            if isinstance(lp, ast.For) and any(is_name(x, L) for x in ast.walk(lp.iter)) and \
+                    any(isinstance(c, ast.Call) and isinstance(c.func, ast.Attribute) and
+                        c.func.attr == 'start' for c in ast.walk(lp)):
+                it = lp.iter
+                if isinstance(it, ast.Call) and call_name(it) in ('list', 'tuple', 'iter') and it.args:
+                    it = it.args[0]
+                if is_name(it, L):
+                    okf = put_ends == {'tail'}
+                elif isinstance(it, ast.Call) and call_name(it) == 'reversed' and it.args and \
+                        is_name(it.args[0], L):
+                    okf = put_ends == {'head'}
+                else:
+                    continue
+                n += 1
+                rep.check(okf, R, 'threads started by a forward iteration over %s' % L,
+                          'the threads are started iterating %s' % norm(lp.iter), key='start-iter:' + L,
+                          func=fi.qualname, where=ctx.where(fi, lp))
+    if not n:
+        rep.assume('C10.R6 not applied: the way waiting threads are taken out and started is not of a '
+                   'form this rule reads')
